@@ -149,7 +149,7 @@ def u_compress_g1(ctx):
     ctx.ex.run(body, q)
 
 
-UNITS["codec.flags"] = Unit("codec.flags", u_flags, [f"{PC}.get_flags", f"{PC}.is_point_at_infinity"], props=("C11", "C04"))
+UNITS["codec.flags"] = Unit("codec.flags", u_flags, [f"{PC}.get_flags", f"{PC}.is_point_at_infinity"], props=("C11", "C04", "C02"))
 UNITS["codec.compress_G1"] = Unit("codec.compress_G1", u_compress_g1, [f"{PC}.compress_G1"], props=("C11", "C09"))
 
 
@@ -312,7 +312,7 @@ def u_roundtrip_g1(ctx):
     ctx.assume("L-SQRT34 + sq_eq_sq_cases (Lean Fields.lean): for q = 3 mod 4 and a square a = Y^2, a^((q+1)/4) is +-Y")
 
 
-UNITS["codec.decompress_G1"] = Unit("codec.decompress_G1", u_decompress_g1, [f"{PC}.decompress_G1"], props=("C11", "C04"))
+UNITS["codec.decompress_G1"] = Unit("codec.decompress_G1", u_decompress_g1, [f"{PC}.decompress_G1"], props=("C11", "C04", "C02"))
 UNITS["codec.roundtrip_G1"] = Unit("codec.roundtrip_G1", u_roundtrip_g1, [f"{PC}.decompress_G1", f"{PC}.compress_G1"],
                                    kind="lemma", props=("C11",))
 
@@ -623,8 +623,8 @@ def u_byte_helpers(ctx):
     ctx.ex.run(body_d, qd)
 
 
-UNITS["codec.compress_G2"] = Unit("codec.compress_G2", u_compress_g2, [f"{PC}.compress_G2"], props=("C11", "C09"))
-UNITS["codec.decompress_G2"] = Unit("codec.decompress_G2", u_decompress_g2, [f"{PC}.decompress_G2"], props=("C11", "C04"))
+UNITS["codec.compress_G2"] = Unit("codec.compress_G2", u_compress_g2, [f"{PC}.compress_G2"], props=("C11", "C09", "C02"))
+UNITS["codec.decompress_G2"] = Unit("codec.decompress_G2", u_decompress_g2, [f"{PC}.decompress_G2"], props=("C11", "C04", "C02"))
 UNITS["codec.roundtrip_G2"] = Unit("codec.roundtrip_G2", u_roundtrip_g2, [f"{PC}.decompress_G2", f"{PC}.compress_G2"],
                                    kind="lemma", props=("C11",), budget_s=600)
 
@@ -641,4 +641,4 @@ def u_codec_closed(ctx):
 UNITS["codec.closed"] = Unit("codec.closed", u_codec_closed, [], kind="closed", props=("C11",))
 UNITS["codec.byte_helpers"] = Unit("codec.byte_helpers", u_byte_helpers,
                                    [f"{G2P}.G1_to_pubkey", f"{G2P}.G2_to_signature", f"{G2P}.pubkey_to_G1", f"{G2P}.signature_to_G2"],
-                                   props=("C11", "C09", "C04"))
+                                   props=("C11", "C09", "C04", "C02", "C01"))
